@@ -158,7 +158,7 @@ marker hypothesis discharged: it is enough that the markers of the *old* disk ou
 were complete on the old image and that no old marker span reaches into a run. -/
 theorem recover_crashed_device (img0 img : Image) (size : Nat) (o : Opts) (info : Gen → RecMeta) (d0 : Disk) (L : List Rec)
     (md : Meta) (js : JournalState) (co : List (Nat × Nat)) (io1 : List IoEv) (p1 : JPos)
-    (hro : o.readOnly = false) (httl : o.ttlOn = false)
+    (hro : o.readOnly = false)
     (hsize : validDeviceSize size = true) (himg : img.size * BSZ = size) (hnz : imageAllZero img = false)
     (hsig : slice (selectMeta (blockAt img FEOX_METADATA_BLOCK) (blockAt img FEOX_METADATA_BACKUP_BLOCK)) 0 FEOX_SIGNATURE_SIZE = FEOX_SIGNATURE)
     (hmd : Meta.decode (selectMeta (blockAt img FEOX_METADATA_BLOCK) (blockAt img FEOX_METADATA_BACKUP_BLOCK)) = some md)
@@ -174,7 +174,9 @@ theorem recover_crashed_device (img0 img : Image) (size : Nat) (o : Opts) (info 
       rd (slice (blockAt img0 p) 18 1) = RETIREMENT_COMPLETE ∧ (r > 1 → tailsComplete img0 p r = true))
     (hspan : ∀ p r, FEOX_DATA_START_BLOCK ≤ p → p < size / BSZ → ¬ inRuns (co.map toRun) p → d0 p = .mark r →
       ∀ q, p ≤ q → q < p + r → ¬ inRuns (co.map toRun) q)
-    (hnd : ((filterRuns L (co.map toRun)).map (fun r => (info r.2.1).key)).Nodup) :
+    (hnd : ((filterRuns L (co.map toRun)).map (fun r => (info r.2.1).key)).Nodup)
+    (hexp : o.ttlOn = true → ∀ l ∈ (filterRuns L (co.map toRun)).foldl (fun lv r => absorbLive lv (liveOf info r)) [],
+      (decide (l.expiry > 0) && decide (o.now > l.expiry)) = false) :
     ∃ r, (recoverImage img size o).result = .ok r ∧ (recoverImage img size o).io = io1 ∧ r.image = applyIo img io1 ∧
       r.version = md.version ∧
       r.live = (filterRuns L (co.map toRun)).foldl (fun lv r => absorbLive lv (liveOf info r)) [] := by
@@ -189,8 +191,8 @@ theorem recover_crashed_device (img0 img : Image) (size : Nat) (o : Opts) (info 
     omega
   have htot : size / BSZ ≤ img.size := by
     rw [← himg, hBSZ]; simp
-  refine recover_crashed_image img0 img size o info d0 L md js co io1 p1 hro httl hsize himg hnz hsig hmd hjs hne hco hio
-    hrep ht htot0 hruns hdisj hagree ?_ hnd
+  refine recover_crashed_image img0 img size o info d0 L md js co io1 p1 hro hsize himg hnz hsig hmd hjs hne hco hio
+    hrep ht htot0 hruns hdisj hagree ?_ hnd hexp
   apply marksClean_replayed h64 (co.map toRun) img0 img (applyIo img io1) d0 ?_ htot ?_ hagree hclean0 hspan
     (replayIo_blocks img hne hco hio (fun r hr => by have := (hruns r hr).2.2.1; omega))
   · intro r hr
